@@ -39,6 +39,76 @@ FLAG_NAMES = ["FITERRSMALL", "FITERR", "FIXED2PSF", "FIXEDCIRCULAR",
               "NOTFIT", "WCSERR", "PRIORIZED"]
 
 
+MUTANTS = [
+    ("istart = i", "AegeanTools/source_finder.py",
+     "g, stage, outerclip, istart=i*group_size)",
+     "g, stage, outerclip, istart=i)", "C03-R1"),
+    ("batch of 21", "AegeanTools/source_finder.py",
+     "if len(island_group) >= group_size:",
+     "if len(island_group) > group_size:", "C03-R1"),
+    ("blind counter not incremented", "AegeanTools/source_finder.py",
+     "            isle_num += 1\n            scalars",
+     "            scalars", "C03-R1"),
+    ("component number from 1", "AegeanTools/source_finder.py",
+     "            source.source = j\n", "            source.source = j + 1\n",
+     "C03-R2"),
+    ("foreign flag value", "AegeanTools/source_finder.py",
+     "                src_flags |= flags.WCSERR\n",
+     "                src_flags |= 128\n", "C03-R3"),
+    ("pa_limit before fix_shape", "AegeanTools/source_finder.py",
+     "            fix_shape(source)\n            # limit the pa to be in "
+     "(-90,90]\n            source.pa = pa_limit(source.pa)\n",
+     "            source.pa = pa_limit(source.pa)\n            fix_shape("
+     "source)\n", "C03-R4"),
+    ("pa_limit closed at -90", "AegeanTools/source_finder.py",
+     "    while pa <= -90:\n        pa += 180", "    while pa < -90:\n"
+     "        pa += 180", "C03-R4"),
+    ("strings before wrap", "AegeanTools/source_finder.py",
+     "            if source.ra < 0:\n                source.ra += 360\n"
+     "            source.ra_str = dec2hms(source.ra)\n",
+     "            source.ra_str = dec2hms(source.ra)\n"
+     "            if source.ra < 0:\n                source.ra += 360\n",
+     "C03-R4"),
+    ("error marker -2", "AegeanTools/fitting.py",
+     "            onesigma = [ERR_MASK] * len(mask[0])",
+     "            onesigma = [-2] * len(mask[0])", "C03-R5"),
+    ("err zero", "AegeanTools/fitting.py",
+     "        source.err_ra = source.err_dec = -1\n\n    if model[prefix + "
+     "'theta'].vary and np.isfinite(err_theta):",
+     "        source.err_ra = source.err_dec = 0\n\n    if model[prefix + "
+     "'theta'].vary and np.isfinite(err_theta):", "C03-R5"),
+    ("int_flux without pi", "AegeanTools/source_finder.py",
+     "source.int_flux = source.peak_flux * sx * sy * CC2FHWM ** 2 * np.pi",
+     "source.int_flux = source.peak_flux * sx * sy * CC2FHWM ** 2",
+     "C03-R6"),
+    ("no handler in priorized", "AegeanTools/source_finder.py",
+     "                try:\n                    result, _ = do_lmfit(idata, "
+     "params, B=B)\n                except AegeanNaNModelError:\n"
+     "                    # as in blind mode: an island that cannot be fit "
+     "is\n                    # skipped instead of aborting the whole run\n"
+     "                    self.log.debug(\n                        \" fit of "
+     "island {0} failed: skipping\".format(inum))\n                    "
+     "continue\n",
+     "                result, _ = do_lmfit(idata, params, B=B)\n", "C03-R8"),
+    ("island position 0-based", "AegeanTools/source_finder.py",
+     "xy = positions[0][0] + xmin + 1, positions[1][0] + ymin + 1",
+     "xy = positions[0][0] + xmin, positions[1][0] + ymin", "C03-R9"),
+    ("float fallback index", "AegeanTools/source_finder.py",
+     "positions = [[kappa_sigma.shape[0] // 2],",
+     "positions = [[kappa_sigma.shape[0] / 2],", "C03-R9"),
+    ("time-dependent value", "AegeanTools/source_finder.py",
+     "            source.residual_mean = residual[0]\n",
+     "            import time\n            source.residual_mean = "
+     "residual[0] + 0 * time.time()\n", "C03-R7"),
+]
+TWINS = [
+    ("stride reordered", "AegeanTools/source_finder.py",
+     "g, stage, outerclip, istart=i*group_size)",
+     "g, stage, outerclip, istart=group_size*i)"),
+]
+
+
+
 def run(ctx):
     prog = ctx.prog
     sf = prog.module("source_finder")
@@ -530,12 +600,29 @@ def r7(ctx, prog):
         for x in ast.walk(fi.node):
             for ch in ast.iter_child_nodes(x):
                 pm[ch] = x
+        local = {}
+        for imp in walk_no_nested(fi.node):
+            if isinstance(imp, ast.Import):
+                for a in imp.names:
+                    local[a.asname or a.name.split(".")[0]] = \
+                        a.name if a.asname else a.name.split(".")[0]
+            elif isinstance(imp, ast.ImportFrom) and imp.module:
+                for a in imp.names:
+                    local[a.asname or a.name] = imp.module + "." + a.name
         for c in walk_no_nested(fi.node):
             if not isinstance(c, ast.Call):
                 continue
             d = prog.dotted(mod, c.func) if isinstance(
                 c.func, ast.Attribute) else prog.resolve_name(
                     mod, norm(c.func))
+            if d is None:
+                root = c.func
+                parts = []
+                while isinstance(root, ast.Attribute):
+                    parts.append(root.attr)
+                    root = root.value
+                if isinstance(root, ast.Name) and root.id in local:
+                    d = ".".join([local[root.id]] + parts[::-1])
             if not d or not d.startswith(NONDET):
                 if isinstance(c.func, ast.Name) and c.func.id == "id" and \
                         "id" not in fi.params:
